@@ -99,9 +99,32 @@ def make_configs(r, n):
             cc = corpus.gen_pred(r, text, 'contains')
             cc['accept'] = {'exit': 3, 'out': 'cc-unsat\n', 'err': ''}
             cc['reject'] = {'exit': 0, 'out': 'cc-sat\n', 'err': ''}
+            # candidates that keep the exit status of the cross check but
+            # change its output: never acceptable here (no -cc option given),
+            # whatever is ignored for the MAIN command
+            cc['near'] = {'pred': {'mode': 'always'},
+                          'beh': {'exit': 3, 'out': 'cc-other\n', 'err': ''},
+                          'acceptable': False}
             meta['cc_spec'] = cc
             meta['compare']['cmd_cc'] = True
             meta['same_basename'] = (i % 14 == 3)
+    # the golden run dies by SIGKILL and the output is ignored; candidates
+    # that lose a marker hang beyond the time limit: being killed at the
+    # limit is not "the same exit status"
+    text = corpus.FLAT
+    for k, st in enumerate(('ddmin', 'hierarchical')):
+        cfgs.append((text, {'mode': 'contains', 'markers': ['check-sat', '4'],
+                            'accept': {'exit': 0, 'out': '', 'err': '',
+                                       'kill': 9},
+                            'near': {'pred': {'mode': 'contains',
+                                              'markers': ['check-sat']},
+                                     'beh': {'exit': 0, 'out': 'late\n',
+                                             'err': '', 'sleep_ms': 1500},
+                                     'acceptable': False}},
+                     ['--strategy', st, '-j', str(k + 1), '--ignore-output',
+                      '--timeout', '0.4'],
+                     {'strategy': st, 'jobs': k + 1, 'outmode': [],
+                      'n': f'K{k}', 'compare': {'ignore_output': True}}))
     # the final file is written by the OUTPUT renderer, which is not the one
     # the candidates were checked with: long quoted tokens that the command
     # depends on, under every output mode
